@@ -88,8 +88,8 @@ fn strings_upto(alpha: &[char], n: usize, f: &mut dyn FnMut(&str)) {
 
 pub fn run(tier: Tier) -> Report {
     let mut rep = Report::new("C05", tier, "exploration");
-    let k = tier.pick(6, 7);
-    let k_layout1 = tier.pick(4, 5);
+    let k = tier.pick(7, 8);
+    let k_layout1 = tier.pick(5, 5);
     let k_layout2 = tier.pick(3, 3);
     let n = crate::par::nthreads();
 
